@@ -184,6 +184,8 @@ struct Exec {
     bool offered = false;
 
     bool annSize = true, annHash = true;  // what the offer announces about the file
+    QString acceptHow = "device", destPath;   // accept(QIODevice*) or accept(filePath) (harness/ibb_device.h)
+    QByteArray received() { return acceptHow == "device" ? recvBuf.data() : readDestination(rJob.data(), destPath); }
 
     Exec(Ctx &c, const QByteArray &f, int blockSize, bool scriptSender, quint64 seed, const QString &ann,
          Exec *shareReceiverOf = nullptr, const QString &senderJid = kSenderJid)
@@ -214,8 +216,12 @@ struct Exec {
             QObject::connect(job, &QXmppTransferJob::finished, job, [this]() { ++rFinished; });
             QObject::connect(job, QOverload<QXmppTransferJob::Error>::of(&QXmppTransferJob::error), job,
                              [this](QXmppTransferJob::Error e) { rErrSig << errorName(e); });
-            recvBuf.open(QIODevice::WriteOnly);
-            job->accept(&recvBuf);
+            if (acceptHow == "device") {
+                recvBuf.open(QIODevice::WriteOnly);
+                job->accept(&recvBuf);
+            } else {
+                job->accept(destPath);
+            }
         });
         if (script) {
             ss.file = file;
@@ -527,7 +533,7 @@ struct Exec {
         QJsonObject o {
             { "rs", rJob ? stateName(rJob->state()) : QStringLiteral("None") },
             { "re", rJob ? errorName(rJob->error()) : QStringLiteral("NoError") },
-            { "rw", int(recvBuf.writes) },
+            { "rw", acceptHow == "device" ? int(recvBuf.writes) : accepted },   // no counting device behind a path
             { "s2r", q1 },
             { "r2s", q2 },
             { "held", held ? 1 : 0 },
@@ -539,7 +545,7 @@ struct Exec {
             o["ss"] = sJob ? stateName(sJob->state()) : QStringLiteral("Idle");
             o["se"] = sJob ? errorName(sJob->error()) : QStringLiteral("NoError");
         }
-        o["eq"] = withEq ? int(recvBuf.data() == file) : -1;
+        o["eq"] = withEq ? int(received() == file) : -1;
         return o;
     }
 };
@@ -562,10 +568,15 @@ void runBehaviour(Ctx &ctx, const QString &caseId, const QJsonObject &beh, int i
     const QString dev = beh["dev"].toString("all");
     const int devAt = dev == "all" ? 0 : beh["devAt"].toInt(1);
     ctx.reset(caseId, { { "n", n }, { "size", double(size) }, { "bs", bs }, { "sender", script ? "script" : "real" }, { "ann", ann },
-                        { "dev", dev }, { "devAt", devAt } });
+                        { "dev", dev }, { "devAt", devAt }, { "accept", beh["accept"].toString("device") } });
     Exec x(ctx, file, bs, script, seed ^ 0x9e3779b97f4a7c15ULL, ann);
     x.recvBuf.mode = dev;
     x.recvBuf.at = devAt;
+    x.acceptHow = beh["accept"].toString("device");
+    x.destPath = beh["dest"].toString();
+    if (x.acceptHow != "device") {
+        prepareDestination(x.acceptHow, x.destPath, size, seed);
+    }
 
     auto emitStep = [&](QJsonObject ev) {
         ev["o"] = x.observe(smallFile);
@@ -643,7 +654,7 @@ void runBehaviour(Ctx &ctx, const QString &caseId, const QJsonObject &beh, int i
     }
 
     auto o = x.observe(true);
-    const auto got = x.recvBuf.data();
+    const auto got = x.received();
     o["rlen"] = double(got.size());
     o["slen"] = double(file.size());
     o["rsha"] = QString::fromLatin1(QCryptographicHash::hash(got, QCryptographicHash::Sha1).toHex());
